@@ -459,6 +459,90 @@ func c16(c *Ctx) {
 		}
 	}
 
+	// V1b: the text converters of the configuration types: a value is stored through the receiver exactly when parsing
+	// succeeded, and what the writer-side converters return was filled from the receiver
+	{
+		nConv := 0
+		for _, fi := range c.P.FuncsIn("config") {
+			if fi.Body() == nil || fi.Obj == nil {
+				continue
+			}
+			sig, _ := fi.Obj.Type().(*types.Signature)
+			if sig == nil || sig.Recv() == nil {
+				continue
+			}
+			info := fi.Info()
+			g := c.Graph(fi)
+			recv := sig.Recv()
+			switch fi.Obj.Name() {
+			case "UnmarshalText", "UnmarshalJSON", "UnmarshalTOML":
+				nConv++
+				nStore := 0
+				for _, v := range g.Nodes() {
+					as, ok := v.Node.(*ast.AssignStmt)
+					if !ok || len(as.Lhs) != 1 {
+						continue
+					}
+					st, ok := ast.Unparen(as.Lhs[0]).(*ast.StarExpr)
+					if !ok {
+						continue
+					}
+					id, ok := ast.Unparen(st.X).(*ast.Ident)
+					if !ok || astx.Obj(info, id) != recv {
+						continue
+					}
+					nStore++
+					okNil := false
+					for _, f := range g.FactsAt(v.ID) {
+						if x, isNil, ok := nilCompare(info, f); ok && isNil {
+							if types.Identical(info.TypeOf(x), types.Universe.Lookup("error").Type()) {
+								okNil = true
+							}
+						}
+					}
+					r.Check(okNil, "C16.V1", fi.Name(), "the parsed value is stored only when parsing succeeded", c.P.Pos(as.Pos()), "dominated by err == nil",
+						"the converter stores a value through its receiver on a path that has not established that parsing succeeded (test inverted): a valid setting is dropped and a failed parse leaves garbage, on every replica")
+				}
+				r.Check(nStore >= 1, "C16.V1", fi.Name(), "the converter stores what it parsed", c.P.Pos(fi.Node().Pos()), "*receiver = … present",
+					"the converter never stores the parsed value: the setting (expiration, cool-off, session secret) silently keeps its zero value")
+				c.errorDiscipline("C16.V1", fi, "a configuration text that does not parse is accepted")
+			case "MarshalText", "String":
+				// a freshly made buffer that is returned must have been filled from the receiver
+				for _, v := range g.Nodes() {
+					as, ok := v.Node.(*ast.AssignStmt)
+					if !ok || len(as.Lhs) != 1 || len(as.Rhs) != 1 {
+						continue
+					}
+					mk, ok := ast.Unparen(as.Rhs[0]).(*ast.CallExpr)
+					if !ok || astx.Builtin(info, mk) != "make" {
+						continue
+					}
+					id, ok := as.Lhs[0].(*ast.Ident)
+					if !ok {
+						continue
+					}
+					buf := astx.Obj(info, id)
+					for _, rv := range g.Returns() {
+						if !astx.Mentions(info, rv.Node, buf) {
+							continue
+						}
+						nConv++
+						filled := g.Between(v.ID, rv.ID, func(x *cfgx.Vertex) bool {
+							if x.Node == nil || x.ID == v.ID || x.ID == rv.ID {
+								return false
+							}
+							return astx.Mentions(info, x.Node, buf) && astx.Mentions(info, x.Node, recv)
+						})
+						r.Check(filled, "C16.V1", fi.Name(), "the returned buffer was filled from the receiver", c.P.Pos(rv.Node.Pos()), "a statement mentioning both lies between make and return",
+							"the writer-side converter returns a buffer it never filled: the value is written as zeros (the snapshot and GET /config show an empty secret)")
+					}
+				}
+			}
+		}
+		if nConv < 2 {
+			r.Break("C16.V1: only %d text converters found in package config", nConv)
+		}
+	}
 	// V6: readers use the configuration in force, not a private copy or summary of it
 	if fi := c.MustFunc("api.(*HTTP).handleGetConfig"); fi != nil {
 		info := fi.Info()
